@@ -57,6 +57,8 @@ def make_field(rng, ny, nx, kind):
             f[0, 0] = 1
     elif kind == "wide":
         f = 10.0 ** rng.uniform(-12, 0, size=(ny, nx))
+    elif kind == "very_wide":  # a footprint that falls off over thirty orders of magnitude
+        f = 10.0 ** rng.uniform(-30, 0, size=(ny, nx))
     else:
         raise ValueError(kind)
     return f
@@ -115,7 +117,7 @@ def run_case(case):
     counters = {"get_source_area_calls": 0, "percentile_calls": 0, "in_rounding_band": 0, "transform_checks": 0, "perm_checks": 0}
 
     ny, nx = int(rng.integers(2, 41)), int(rng.integers(2, 41))
-    fkind = str(rng.choice(["random", "sparse", "ties", "zeros", "magnitudes", "wide", "solver", "int_counts"]))
+    fkind = str(rng.choice(["random", "sparse", "ties", "zeros", "magnitudes", "wide", "very_wide", "solver", "int_counts"]))
     dx, dy = float(rng.uniform(0.5, 20)), float(rng.uniform(0.5, 20))
     x1, y1 = np.arange(nx) * dx, np.arange(ny) * dy
     X, Y = np.meshgrid(x1, y1)
@@ -167,8 +169,21 @@ def run_case(case):
     lo, hi = brute_source_area(f, g)
     exc = float(max((lo - r).max(), (r - hi).max()))
     resid["source_area_excess"] = max(0.0, exc) / total if total else 0.0
+    # per cell, relative to the sum the definition names for THAT cell (a sum of non-negative numbers is accurate to n*eps of itself,
+    # whatever the total is): an implementation that forms "total minus the rest" is wrong where the enclosed contribution is tiny
+    rel_bad = None
+    if r.shape == g.shape and f.dtype.kind == "f":
+        slack_ = 16 * n * EPS
+        under = r < lo * (1 - slack_) - 1e-300
+        over = r > hi * (1 + slack_) + 1e-300
+        if bool((under | over).any()):
+            j_ = int(np.argmax((under | over).ravel()))
+            rel_bad = (j_, float(r.ravel()[j_]), float(lo.ravel()[j_]), float(hi.ravel()[j_]))
     if r.shape != g.shape:
         viol.append({"what": "rescaled_shape", "got": r.shape})
+    elif rel_bad is not None and not exc > tol:
+        viol.append({"what": "rescaled_value_outside_definition", "field": fkind, "base": gkind, "shape": f.shape, "cell": rel_bad[0],
+                     "got": rel_bad[1], "lower": rel_bad[2], "upper": rel_bad[3], "note": "relative to the cell's own sum (total is %g)" % total})
     elif exc > tol:
         i = int(np.argmax(np.maximum(lo - r, r - hi)))
         viol.append({"what": "rescaled_value_outside_definition", "field": fkind, "base": gkind, "shape": f.shape, "cell": i,
